@@ -17,6 +17,9 @@ R06.5  imports: each imported memory/table/global is assigned from resolve("<mod
        pointer type and every use goes through that pointer
 R06.6  exports: wrappers are named <module>_<escaped name>, forward all parameters in order to the exported
        function; the FuncExports table has one row per function export plus a terminator
+R06.7  allocators: wasmMemoryAllocate / wasmTableAllocate (partially evaluated with symbolic operands, shared and not) record the
+       declared minimum as the current size, the declared maximum, the shared flag, and obtain zero-filled storage of the
+       recorded byte size
 """
 import re
 
@@ -151,6 +154,113 @@ def split_functions(text):
 
 
 INIT_NAMES = ['modInitImports', 'modInitMemories', 'modInitTables', 'modInitGlobals']
+
+
+def check_table_receivers(chk, tus, rule):
+    """shared with C04: in every instance-creating entry point (Instantiate and NewChild) the element-segment initialiser is run, and
+    it is applied to the instance being created - a child instance whose tables stay uninitialised cannot serve call_indirect"""
+    it = make(tus)
+    for table in ('defined', 'imported'):
+        for mem in ('defined', 'none'):
+            mk = shape(it, mem=mem, table=table, nglobals=0, gimports=0, data=(), elems=1, start=False)
+            text = normalize_emitted(inits_text(it, mk))
+            fns = split_functions(text)
+            label = 'table=%s,mem=%s' % (table, mem)
+            chk.require('modInitTables' in fns, 'modInitTables not emitted (%s)' % label)
+            stores = re.findall(r'\.data\s*\[[^\]]*\]\s*=', fns['modInitTables'])
+            chk.expect(bool(stores), rule, 'element-stores[%s]' % label, 'modInitTables stores no table entries for a module with an element segment',
+                       'wasmCWriteInitTables:stores')
+            for entry, recv in (('modInstantiate', 'i'), ('modNewChild', 'child')):
+                chk.require(entry in fns, '%s not emitted (%s)' % (entry, label))
+                got = re.findall(r'\bmodInitTables\s*\(\s*(\w+)', fns[entry])
+                chk.expect(got == [recv], rule, '%s-tables[%s]' % (entry, label),
+                           '%s runs the table/element initialiser on %r; it must run exactly once on %s, the instance being created: otherwise '
+                           'call_indirect in the new instance finds an uninitialised table' % (entry, got, recv),
+                           'wasmCWrite%sFunction:table-receiver' % ('Instantiate' if entry == 'modInstantiate' else 'NewChild'))
+
+
+def check_allocators(chk):
+    """R06.7: the runtime allocators called by the emitted initialisers create memories and tables of the declared minimum size,
+    zero-filled: wasmMemoryAllocate(initial, max, shared) and wasmTableAllocate(table, size, max) are partially evaluated with
+    symbolic operands and the final descriptor is compared field by field"""
+    from .. import runtime, pe
+    from ..pe import unk, Ptr, is_sym
+    htu = runtime.header('le')
+    chk.unit(htu)
+    ini, mx = unk('initialPages', 'unsigned int'), unk('maxPages', 'unsigned int')
+
+    def is_bytes(v, pages):
+        v = pe.strip_casts(v)
+        if not is_sym(v):
+            return False
+        args = [pe.strip_casts(x) for x in v.args]
+        if v.op == '*':
+            return (args[0] == pages and args[1] == 65536) or (args[1] == pages and args[0] == 65536)
+        return v.op == '<<' and args[0] == pages and args[1] == 16
+    chk.fn('wasmMemoryAllocate', 'wasmTableAllocate')
+    for shared in (0, 1):
+        site = 'wasmMemoryAllocate'
+        inst = 'memory[shared=%d]' % shared
+        try:
+            ps = runtime.summarize(htu, 'wasmMemoryAllocate', lambda it: ([ini, mx, shared], {}))
+        except pe.PEError as e:
+            raise AnalysisBroken('wasmMemoryAllocate: %s' % e)
+        good = [p for p in ps if not p.aborted]
+        chk.require(good, 'wasmMemoryAllocate(shared=%d) has no successful path' % shared)
+        for p in good:
+            fields = {}
+            for nm, a, l in p.events:
+                if nm == 'store-sym':
+                    m = re.search(r'\.(\w+)$', repr(a[0]))
+                    if m:
+                        fields[m.group(1)] = a[1]
+            chk.expect(pe.strip_casts(fields.get('pages')) == ini, 'R06.7', inst + ':pages',
+                       'a new memory reports %r pages; the specification instantiates it with the declared minimum (initialPages) - memory.size '
+                       'and every later memory.grow depend on it' % (fields.get('pages'),), site + ':pages')
+            chk.expect(pe.strip_casts(fields.get('maxPages')) == mx, 'R06.7', inst + ':max', 'maxPages is set to %r' % (fields.get('maxPages'),),
+                       site + ':max')
+            chk.expect(fields.get('shared') == shared, 'R06.7', inst + ':shared', 'shared flag is set to %r' % (fields.get('shared'),), site + ':shared')
+            allowed = [ini] + ([mx] if shared else [])
+            size = fields.get('size')
+            cover = [x for x in allowed if is_bytes(size, x)]
+            chk.expect(bool(cover), 'R06.7', inst + ':size',
+                       'the byte size is set to %r; expected the page count (%s) times 65536' % (size, ' or '.join(repr(x) for x in allowed)),
+                       site + ':size')
+            allocs = [(nm, a) for nm, a, l in p.events if nm in ('calloc', 'malloc', 'realloc')]
+            data_alloc = [(nm, a) for nm, a in allocs if not (nm == 'calloc' and any('sizeof' in repr(x) for x in a))]
+            if not chk.expect(len(data_alloc) == 1, 'R06.7', inst + ':one-allocation', 'data allocations: %r' % (data_alloc,), site + ':alloc'):
+                continue
+            nm, a = data_alloc[0]
+            if nm != 'calloc':
+                zero = any(n2 == 'extern:memset' or n2 == 'memset' for n2, _a, _l in p.events)
+                chk.expect(zero, 'R06.7', inst + ':zeroed', 'linear memory is obtained with %s and not cleared: new memories must read as zero' % nm,
+                           site + ':zeroed')
+                continue
+            aa = [pe.strip_casts(x) for x in a]
+            total_ok = bool(cover) and ((is_bytes(aa[0], cover[0]) and aa[1] == 1) or (aa[0] == 1 and is_bytes(aa[1], cover[0])) or
+                                        (aa[0] == cover[0] and aa[1] == 65536) or (aa[1] == cover[0] and aa[0] == 65536))
+            chk.expect(total_ok, 'R06.7', inst + ':allocation', 'calloc(%r, %r) does not allocate the %r bytes recorded as the memory size'
+                       % (a[0], a[1], size), site + ':alloc')
+    # tables
+    sz, tmx = unk('size', 'unsigned int'), unk('maxSize', 'unsigned int')
+
+    def mk(it):
+        t = {'v': {'size': unk('osize'), 'maxSize': unk('omax'), 'data': unk('odata')}}
+        return [Ptr(t, 'v'), sz, tmx], {'t': t}
+    try:
+        ps = [p for p in runtime.summarize(htu, 'wasmTableAllocate', mk) if not p.aborted]
+    except pe.PEError as e:
+        raise AnalysisBroken('wasmTableAllocate: %s' % e)
+    chk.require(ps, 'wasmTableAllocate has no path')
+    for p in ps:
+        t = p.state['t']['v']
+        chk.expect(pe.strip_casts(t['size']) == sz and pe.strip_casts(t['maxSize']) == tmx, 'R06.7', 'table:fields',
+                   'a new table records size %r / maximum %r; expected the declared minimum and maximum' % (t['size'], t['maxSize']),
+                   'wasmTableAllocate:fields')
+        cal = [a for nm, a, l in p.events if nm == 'calloc']
+        ok = len(cal) == 1 and any(pe.strip_casts(x) == sz for x in cal[0]) and any('sizeof' in repr(x) for x in cal[0])
+        chk.expect(ok, 'R06.7', 'table:allocation', 'table entries are allocated by %r; expected calloc of `size` zeroed function pointers'
+                   % ([e for e in p.events if e[0] in ('calloc', 'malloc')],), 'wasmTableAllocate:alloc')
 
 
 def check_shapes(chk, it):
@@ -445,6 +555,8 @@ def run(chk):
     tus = emit.translator_tus(('c.c', 'opcode.c', 'instruction.c'), chk=chk)
     it = make(tus)
     n = check_shapes(chk, it)
+    check_allocators(chk)
+    chk.floor('R06.7', 12)
     chk.explanation = chk.explanation.replace('on 0 concrete', 'on %d concrete' % n)
     check_data_arrays(chk, it)
     check_members_and_imports(chk, it)
